@@ -200,12 +200,17 @@ def r4_unkeyed_state(ctx):
     ctx.ob(rule, name, 'hit counter does not influence the answer', not leak, expected='counter only incremented')
 
 
+def all_rules(ctx):
+    run(ctx)
+
+
 def run(ctx):
     r1_key_composition(ctx)
     r2_read_set(ctx)
     sub = type(ctx)(ctx.prop, ctx.tier, ctx.facts, ctx.facts_info, ctx.seed)
     c05.r1_placement(sub)
     c05.r23_stacks(sub)
+    c05.r5_tables(sub)
     for s in sub.samples:
         ctx.ob(s['rule'].replace('C05.', 'C02.R3/C05.'), s['function'], s['instance'], s['ok'], found=s['found'], expected=s['expected'],
                why='two different positions must never share a cache key: the key has to be a function of the current position only',
